@@ -117,6 +117,36 @@ PROPS['C18'].update({
     ],
 })
 
+ASSUME_ND = [
+    'f64 read as exact reals: every ndarray / scalar operation in prelude/nd_shim*.rs is external_body with an ASSUMED contract in real arithmetic (NaN, infinities and rounding are outside the model except is_nan/is_infinite flags); validated against the real ndarray only by the bounded replay bc aff / bc poly',
+    'rule F1/O1: scalar float operators and reference-reference array operators are replaced by named helpers / explicit trait calls (Sub::sub(a, b)); each site is listed as //@bodysub in units/aff_algebra.rs',
+    'rule M1/M2: impl_ops! bodies are verified with $trt/$mth substituted; ndarray concatenate![Axis(0), a, b] is modelled by NdConcat::concat',
+    'rule T1: operator trait impl methods are verified as inherent methods (<op>_ref / <op>_owned / neg_owned)',
+    'math.rs lemmas are proved (no axioms); the only axioms are the array shape invariants axiom_array{1,2}_shape',
+]
+PROPS['C16'].update({
+    'level': 'other',
+    'units': ['aff_algebra'],
+    'technique': 'Verus contracts on the extracted text of src/linalg/affine.rs and src/linalg/impl_ops.rs against a real-arithmetic shim of ndarray (forall-x post-conditions proved with induction lemmas) + bounded replay (bc aff) for the iterator-based helpers',
+    'level_text': ('Mixed. PROVED modulo "f64 = reals" (Verus, all shapes, all inputs): from_mats, indim/outdim, identity, zeros, constant, unit, zero_idx, sum, subtraction, rotation, scaling, '
+                   'uniform_scaling, translation (forall x: apply(result, x) == definition); apply, apply_transpose; compose(f,g)(x)==f(g(x)); stack concatenates outputs; + - * / '
+                   'coefficient-wise for the borrowed and the owned variant (and + / - point-wise), unary minus and negate point-wise; view, to_owned, as_polytope, as_function, '
+                   'Polytope::new keep the coefficients; convert_to describes the same half-spaces row by row for every PolyRepr. '
+                   'BOUNDED only (bc aff): row, row_iter, remove_rows, remove_zero_rows, remove_zero_columns, from_row_iter, slice, % (iterator / closure pipelines, no real-number reading).'),
+    'design_ref': 'DESIGN.md §4 C16',
+    'assumptions': ASSUME_COMMON + ASSUME_ND + ASSUME_BC,
+})
+PROPS['C14'].update({
+    'level': 'other',
+    'units': ['aff_algebra'],
+    'technique': 'Verus contracts on the extracted polytope operations of src/linalg/affine.rs against the real-arithmetic ndarray shim (membership equivalences for all x) + bounded replay (bc poly)',
+    'level_text': ('Mixed. PROVED modulo "f64 = reals" (Verus, all polytopes, all points, all dimensions): unbounded, empty, hypercube, axis_bounds / place_axis_bounds (incl. infinite bounds), '
+                   'distance_raw == b - M x, translate (x in result <=> x - d in P), intersection (<=> in both), apply_pre (<=> f(x) in P), apply_post (<=> inverse (y - bias) in P), rotate (<=> R^T y in P). '
+                   'BOUNDED only (bc poly): intersection_n, hyperrectangle, cross_polytope, from_normal, simplex, distance (norms), contains (closure with tolerance).'),
+    'design_ref': 'DESIGN.md §4 C14',
+    'assumptions': ASSUME_COMMON + ASSUME_ND + ASSUME_BC,
+})
+
 NOT_APPLICABLE = {
     'C10': 'correctness of the external LP solver (minilp simplex) seen through a 20-line adapter: no contract within reach can decide it; a contract on solve_linprog would have to be assumed',
     'C19': 'fmt::Formatter / string output: Verus has no model of core::fmt output or str contents; deciding it means parsing output back, which is testing, not contract verification',
